@@ -441,8 +441,6 @@ def judge_cubic(case) -> Outcome:
             resid = M[ok_rows] - Q @ (Q.T @ M[ok_rows])
             if np.abs(resid).max() > 1e-6 * scale:
                 out.fail("c12.centering_span", f"{tag}: centred columns leave the span of the spline basis by {np.abs(resid).max():.2e}")
-            if len(set(xeff[ok_rows].tolist())) >= nfree + 2 and np.linalg.matrix_rank(M[ok_rows], tol=1e-8 * scale) != M.shape[1]:
-                out.fail("c12.centering_rank", f"{tag}: centred basis is rank deficient")
     # state reuse on fresh points
     xn = np.array(case["xnew"], float)
     if ext == "raise":
